@@ -14,6 +14,29 @@ import time
 import z3
 
 
+COMMUTATIVE = {"BIGMUL"}
+
+_HAS_UF = {}   # term id -> (term kept alive, bool): does the term contain an uninterpreted function application?
+
+
+def has_uf(t):
+    k = t.get_id()
+    hit = _HAS_UF.get(k)
+    if hit is not None:
+        return hit[1]
+    r = False
+    if z3.is_app(t) and t.num_args() > 0:
+        if t.decl().kind() == z3.Z3_OP_UNINTERPRETED:
+            r = True
+        else:
+            for c in t.children():
+                if has_uf(c):
+                    r = True
+                    break
+    _HAS_UF[k] = (t, r)
+    return r
+
+
 class Mismatch(Exception):
     """structural difference between the two flattened strings (an atom facing a byte or another atom, or different lengths)"""
 
@@ -24,14 +47,15 @@ class NeedSplit(Exception):
 
 
 class SeqEq:
-    def __init__(self, pc, timeout_ms=60000, stats=None):
+    def __init__(self, pc, timeout_ms=60000, stats=None, axioms=()):
         self.s = z3.Solver()
         self.s.set("timeout", timeout_ms)
         self.classes = []   # (fname, flat_arg, var)
+        self.bvclasses = []  # (fname, abstracted args, var)
         self.memo_bv = {}
         self.stats = stats if stats is not None else {}
         self.n = 0
-        for c in pc:
+        for c in list(pc) + list(axioms):
             # path-condition literals may mention uninterpreted functions of byte strings (e.g. the length of the
             # separator-free subscript): abstract them with the same class variables as the compared terms
             self.s.add(self.abstract(c))
@@ -99,6 +123,8 @@ class SeqEq:
         k = bv.get_id()
         if k in self.memo_bv:
             return self.memo_bv[k]
+        if not has_uf(bv):
+            return bv
         if z3.is_app(bv) and bv.num_args() > 0:
             if bv.decl().kind() == z3.Z3_OP_UNINTERPRETED and any(z3.is_seq(bv.arg(i)) for i in range(bv.num_args())):
                 flat = self.flatten(bv.arg(0))
@@ -124,6 +150,33 @@ class SeqEq:
                         if eqs:
                             self.s.add(z3.Implies(z3.And(*eqs), var == v2))
                     self.classes.append((name, flat, var))
+                r = var
+            elif bv.decl().kind() == z3.Z3_OP_UNINTERPRETED and not any(z3.is_seq(c) for c in bv.children()):
+                # uninterpreted function of bit-vectors (external big-number multiplication/division): class variable per
+                # provably equal argument tuple (argument order irrelevant for the commutative BIGMUL)
+                name = bv.decl().name()
+                args = [self.abstract(c) for c in bv.children()]
+                var = None
+                for (n2, a2, v2) in self.bvclasses:
+                    if n2 != name or len(a2) != len(args):
+                        continue
+                    cands = [list(zip(args, a2))]
+                    if name in COMMUTATIVE and len(args) == 2:
+                        cands.append(list(zip(args, reversed(a2))))
+                    for pairs in cands:
+                        eqs = [p == q for p, q in pairs if p.get_id() != q.get_id()]
+                        if not eqs or self._check(z3.Not(z3.And(*eqs))) == z3.unsat:
+                            var = v2
+                            break
+                    if var is not None:
+                        break
+                if var is None:
+                    self.n += 1
+                    var = z3.Const(f"{name}#{self.n}", bv.sort())
+                    for (n2, a2, v2) in self.bvclasses:
+                        if n2 == name and len(a2) == len(args):
+                            self.s.add(z3.Implies(z3.And(*[p == q for p, q in zip(args, a2)]), var == v2))
+                    self.bvclasses.append((name, args, var))
                 r = var
             else:
                 ch = [self.abstract(c) if not z3.is_seq(c) else c for c in bv.children()]
@@ -160,18 +213,33 @@ class SeqEq:
         return self._check(z3.Not(z3.And(*eqs))) == z3.unsat
 
 
-def compare(pc, a, b, stats=None, depth=0):
+def commutativity_axioms(terms, fname="BIGMUL"):
+    """instances f(p,q) == f(q,p) for every application of the (mathematically commutative) uninterpreted function in the terms"""
+    seen, out, todo = set(), [], list(terms)
+    while todo:
+        t = todo.pop()
+        if t.get_id() in seen:
+            continue
+        seen.add(t.get_id())
+        if z3.is_app(t):
+            if t.decl().kind() == z3.Z3_OP_UNINTERPRETED and t.decl().name() == fname and t.num_args() == 2:
+                out.append(t == t.decl()(t.arg(1), t.arg(0)))
+            todo.extend(t.children())
+    return out
+
+
+def compare(pc, a, b, stats=None, depth=0, axioms=()):
     """a, b: Seq terms.  -> list of outcomes, one per case split:
        ('equal', pc') | ('differ', pc', model_or_None, reason) | ('unknown', pc', reason)"""
-    se = SeqEq(pc, stats=stats)
+    se = SeqEq(pc, stats=stats, axioms=axioms)
     try:
         A = se.flatten(a)
         B = se.flatten(b)
     except NeedSplit as ns:
-        if depth > 12:
+        if depth > 8:
             return [("unknown", pc, "too many case splits")]
         c = ns.cond
-        return compare(pc + [c], a, b, stats, depth + 1) + compare(pc + [z3.Not(c)], a, b, stats, depth + 1)
+        return compare(pc + [c], a, b, stats, depth + 1, axioms) + compare(pc + [z3.Not(c)], a, b, stats, depth + 1, axioms)
     if se._check() != z3.sat:
         return []  # this case split is infeasible
     try:
